@@ -104,3 +104,18 @@ def gaps(seed, quick):
                     for autod in ((0,) if quick else (0, 1)):
                         out.append(Scn("gap/%s.%s.p%d.g%d.a%d" % (name, side, p, g, autod), arr, dict({"mode": "raw", "wf": 0, "cls": "gap", "autod": autod, "dump": 0}, **extra.get(name, {})), (), (), rnd.random() < .8))
     return out
+
+
+def structural(seed, quick, names=None, cfgs=({},), per=None):
+    """The exchange library under structural interleavings (streams.structural_interleavings): more draws for the CONNECT / Upgrade exchanges, whose
+    hand-over makes the order of arrival matter most."""
+    rnd = random.Random(seed + 41)
+    out = []
+    for name, ex in streams.exchange_library().items():
+        if names and name not in names:
+            continue
+        k = per or ((300 if ex.get("cls") in ("resume", "tunnel") else 60) if quick else (3000 if ex.get("cls") in ("resume", "tunnel") else 600))
+        for ci, cfg in enumerate(cfgs):
+            for label, arr in streams.structural_interleavings(ex, rnd, k):
+                out.append(streams.scn_from_exchange("ex/%s.%s.c%d" % (name, label, ci), ex, arr, cfg))
+    return out
